@@ -394,11 +394,17 @@ def check(ctx):
                         helper = func.nested()[inner.func.id]
                         hparams = helper.params()
                         body = K._fn_body(helper.raw)
+                        henv = {}
+                        for st in body:
+                            if isinstance(st, ast.Assign) and \
+                                    isinstance(st.targets[0], ast.Name):
+                                henv[st.targets[0].id] = st.value
                         if hparams and any(
                                 isinstance(s, ast.Assign) and
                                 N.txt(s.targets[0]) ==
                                 'suspended[%s]' % hparams[0] and
-                                '_DELAY_INTERVAL' in N.txt(s.value)
+                                '_DELAY_INTERVAL' in N.txt(
+                                    N.subst(s.value, henv))
                                 for s in body):
                             sets = True
                 handled[name] = sets
@@ -489,7 +495,7 @@ def check(ctx):
     sched = [n for n, c in K.nodes_calling(
         cgraph, lambda c: 'create_apps' in N.txt(c.func))]
     tests = [n for n in cgraph.nodes if n.kind == 'test' and
-             '_QUOTA' in N.txt(n.ast)]
+             '_QUOTA' in K.test_text(cfunc, n)]
     ok = len(quotas) == 2 and bool(sched) and all(
         K.guarded_by(cgraph, s, lambda e, t=t: e.src is t and
                      e.kind == 'false') for s in sched for t in tests)
